@@ -242,6 +242,10 @@ func c19buildEnv() (*c19env, error) {
 	imm(`string:"UTC"`, "", ugo.String("UTC"))
 	p = append(p, c19val{label: `string:"1099511627776"`, typ: "string", mag: "huge", v: ugo.String("1099511627776"), huge: 1 << 40}) // converts to 2^40 where an int is wanted
 	imm(`string:1KiB("abc "x256)`, "big", ugo.String(c19kib()))
+	// well-formed JSON documents (escapes in upper and lower case, a surrogate pair, escaped object key, every value kind):
+	// the json functions get past their validation with these
+	imm("string:json-doc", "json", ugo.String(c19jsonDoc))
+	mut("bytes:json-doc", "json", func() ugo.Object { return ugo.Bytes(c19jsonDoc) })
 	mut("bytes:empty", "empty", func() ugo.Object { return ugo.Bytes{} })
 	mut("bytes:[1 2 255]", "", func() ugo.Object { return ugo.Bytes{1, 2, 255} })
 	mut("bytes:56", "mid", func() ugo.Object { return ugo.Bytes(strings.Repeat("\xfb\x00a", 19)[:56]) })
@@ -325,6 +329,8 @@ var c19timeMethods = []string{"Add", "Sub", "AddDate", "After", "Before", "Forma
 	"Date", "Clock", "UTC", "Unix", "UnixNano", "Year", "Month", "Day", "Hour", "Minute", "Second", "Nanosecond", "IsZero",
 	"Local", "Location", "YearDay", "Weekday", "ISOWeek", "Zone",
 	"NanoSecond", "NoSuchMethod", "String"}
+
+const c19jsonDoc = `{"\u00C4k":[1,"\u003C\uD83D\uDE00\u00e9\u00E9\n",true,null,{"a":-1.5e3,"\u0062":"\uD83D\uDe00"}],"z":"\u00aB"}`
 
 func c19catalog(env *c19env) []*c19callable {
 	var out []*c19callable
